@@ -1,10 +1,11 @@
 (* C15/Props.v — property-level theorems only (statements + `exact`), each followed by Print Assumptions.
    Tags [FULL]/[PARTIAL]/[REFUTED] are read by bin/check.
-   as_found = the client code as it is in the repository; repaired = with fixes/F16 and fixes/F17 applied.
+   as_found = the client code before any repair; head_tree = with F16 and F17 (committed in /repo);
+   repaired = additionally with F17b (a failed ReadaheadBlob.Seek keeps the buffer).
    res_ok v c s: client result c equals the sparse file's result s (count/offset, cursor, error class, bytes);
    for v = as_found the error class of a read in the F16 input class (s_full_tail) is nil instead of EOF. *)
 From Coq Require Import List NArith ZArith Bool.
-From BLB Require Import Gen.Consts C15.Core C15.Model C15.ProofsBytes C15.ProofsClient C15.ProofsStep.
+From BLB Require Import Gen.Consts C15.Core C15.Model C15.ProofsBytes C15.ProofsClient C15.ProofsStep C15.ProofsRA C15.ProofsCanon.
 Import ListNotations.
 Open Scope N_scope.
 
@@ -75,27 +76,69 @@ Proof.
 Qed.
 Print Assumptions readahead_seek_cur_refuted.
 
-(* [FULL] the wrapper's Seek from the start and from the end returns and reaches the same offset as a plain
-   Blob Seek on the sparse file, discarding the buffer, in every state and for every variant, and with fix F17
-   Seek relative to the current position is relative to the wrapper's logical position *)
-Theorem readahead_seek_agrees :
-  forall v tl st f off, R tl st f ->
-    ((0 <= off)%Z ->
-       fst (fst (ra_seek v tl st off 0)) = off /\ pos (snd (ra_seek v tl st off 0)) = off /\
-       rbuf (snd (ra_seek v tl st off 0)) = []) /\
-    ((0 <= Z.of_N (slen f) + off)%Z ->
-       fst (fst (ra_seek v tl st off 2)) = (Z.of_N (slen f) + off)%Z /\
-       pos (snd (ra_seek v tl st off 2)) = (Z.of_N (slen f) + off)%Z /\ rbuf (snd (ra_seek v tl st off 2)) = []) /\
-    (fix17 v = true -> (0 <= lpos st + off)%Z ->
-       fst (fst (ra_seek v tl st off 1)) = (lpos st + off)%Z /\
-       pos (snd (ra_seek v tl st off 1)) = (lpos st + off)%Z /\ rbuf (snd (ra_seek v tl st off 1)) = []).
+(* [FULL] the buffered read-ahead wrapper returns the same bytes as direct reads. For every tract length, every
+   state satisfying the wrapper invariant RAinv (tracts hold the file f, the buffer holds f from the logical
+   position lpos = Blob.offset - Buffered up to Blob.offset, a sticky EOF only at or past the end) and every sequence
+   of wrapper Read, Seek with SEEK_SET, SEEK_CUR, SEEK_END or an invalid whence, and ByteLength, the results are those
+   of a plain Blob on f whose cursor starts at lpos, up to chunking (stream_ok with strict = true). Each Read of k
+   bytes delivers a prefix, non-empty whenever the plain Read is, of the bytes the plain Read at the current cursor
+   returns, and advances the cursor by its count, EOF being reported only when the delivered bytes reach the end and
+   always when nothing is delivered for k > 0, which covers the large-read bypass and the sticky error. Each Seek
+   returns exactly the offset and error of the plain Seek and moves the cursor where the plain Seek moves it,
+   discarding the buffer on success and keeping everything on failure. Code = repaired, with F16 F17 F17b *)
+Theorem readahead_stream_equal :
+  forall tl st f ops, 0 < tl -> RAinv tl st f -> forallb ra_op ops = true ->
+    stream_ok tl true f (lpos st) ops (run repaired tl st ops).
+Proof. intros. apply (readahead_stream_lemma repaired); auto. Qed.
+Print Assumptions readahead_stream_equal.
+
+(* [FULL] the same for the tree as committed, F16 and F17 only, with one exception, strict = false. A Seek that
+   FAILS, negative target or invalid whence, has already discarded the buffer, so the cursor may move forward by
+   the buffered amount. Reads, successful Seeks and ByteLength agree with the plain Blob exactly as above *)
+Theorem readahead_stream_equal_except_failed_seek :
+  forall tl st f ops, 0 < tl -> RAinv tl st f -> forallb ra_op ops = true ->
+    stream_ok tl false f (lpos st) ops (run head_tree tl st ops).
+Proof. intros. apply (readahead_stream_lemma head_tree); auto. Qed.
+Print Assumptions readahead_stream_equal_except_failed_seek.
+
+(* [REFUTED] on the committed tree a failed wrapper Seek is not a no-op for the stream. Witness = 1000-byte blob,
+   read 5 bytes through the wrapper, Seek(-1, SEEK_SET) fails, and the logical position has jumped from 5 to 1000,
+   the buffered 995 bytes are skipped. This is finding F17b *)
+Theorem readahead_failed_seek_refuted :
+  exists ops off w,
+    let st := exec head_tree c15_TractLength (init_state false) ops in
+    let r := ra_seek head_tree c15_TractLength st off w in
+    snd (fst r) <> E_OK /\ lpos (snd r) <> lpos st.
 Proof.
-  intros v tl st f off HR. split; [|split].
-  - apply ra_seek_set_lemma.
-  - apply ra_seek_end_lemma; auto.
-  - apply ra_seek_cur_repaired_lemma.
+  exists [OWriteAt 0%Z [(10, 1); (990, 2)]; ORaRead 5], (-1)%Z, 0%Z. vm_compute. split; discriminate.
 Qed.
-Print Assumptions readahead_seek_agrees.
+Print Assumptions readahead_failed_seek_refuted.
+
+(* [FULL] between seeks the concatenation of what consecutive wrapper Reads deliver is exactly the file content
+   from the logical position on, the bytes direct reads deliver, never beyond the end, for every variant with F17 *)
+Theorem readahead_reads_concat :
+  forall v tl st f ks, fix17 v = true -> 0 < tl -> RAinv tl st f ->
+    let rs := run v tl st (map ORaRead ks) in
+    rlen (delivered rs) = delivered_len rs /\
+    (forall y, y < delivered_len rs -> rget (delivered rs) y = sget f (Z.to_N (lpos st) + y)) /\
+    Z.to_N (lpos st) + delivered_len rs <= N.max (Z.to_N (lpos st)) (slen f).
+Proof. exact readahead_reads_lemma. Qed.
+Print Assumptions readahead_reads_concat.
+
+(* [FULL] the wrapper invariant holds wherever a wrapper is created. After any sequence of direct operations from
+   the empty blob followed by NewReadaheadBlob, RAinv relates the state to the sparse file those operations built *)
+Theorem readahead_invariant_reachable :
+  forall v tl c ops, 0 < tl -> forallb direct_op ops = true ->
+    RAinv tl (exec v tl (init_state c) (ops ++ [ORaNew])) (sexec tl sf_empty ops).
+Proof. exact RAinv_reachable_lemma. Qed.
+Print Assumptions readahead_invariant_reachable.
+
+(* [FULL] pointwise-equal byte strings have the same canonical run-length encoding, the form compared on the wire,
+   so agreement of delivered bytes in res_ok and res_same is agreement of the encoded observations *)
+Theorem canonical_rle_determined :
+  forall a b, rlen a = rlen b -> (forall i, rget a i = rget b i) -> canon a = canon b /\ enc_runs a = enc_runs b.
+Proof. intros a b Hl Hg. split; [apply canon_ext | apply enc_runs_ext]; auto. Qed.
+Print Assumptions canonical_rle_determined.
 
 (* non-vacuity: a concrete run exercising holes over part of a tract, a whole tract and several tracts *)
 Example sparse_example :
